@@ -349,6 +349,21 @@ def build_image(im, image_id, resolved):
         mode = im.get("line_mode") or "distinct"
         # "steps": piecewise constant, the value changes at lines 4, 15, 1000, 1024 and 4096
         salt = 100 * (image_id + 1) + (k if mode == "distinct" else sum(k >= c for c in (4, 15, 1000, 1024, 4096)) if mode == "steps" else 0)
+        if mode in ("near", "near-pairs"):
+            # the images of one product carry almost the same per-line values: the same baseline for every image, and image i
+            # (or pair of images i // 2) differs from it by i units of every wide numeric field (relative difference ~1e-7 .. 1e-9)
+            salt = 100 + k
+            bump = image_id if mode == "near" else image_id // 2
+            for f in rec.fields:
+                if f["key"] in LINE_CONSTANTS or f["key"] in ov or "enum" in f or f.get("flag") or is_spare(f["name"]):
+                    continue
+                if f["kind"] == "B" and f["w"] >= 4:
+                    ov[f["key"]] = (3_000_000 + int.from_bytes(baseline_value(f, salt), "big") + bump).to_bytes(f["w"], "big")
+                elif f["kind"] == "ydms":
+                    y, d, ms = struct.unpack(">III", baseline_value(f, salt))
+                    ov[f["key"]] = struct.pack(">III", y, d, ms + bump)
+                elif f["kind"] == "us":
+                    ov[f["key"]] = struct.pack(">Q", struct.unpack(">Q", baseline_value(f, salt))[0] + bump)
         if mode == "steps":
             # per-line flags are set on every other stretch: set, cleared again, set ...
             stretch = sum(k >= c for c in (4, 15, 1000, 1024, 4096))
